@@ -284,6 +284,38 @@ def clause3_responses(ctx, P):
     ctx.floor("C02.3 R-SELF", 1)
 
 
+def clause5b_number_rendering(ctx, P):
+    """numbers leave the daemon as they came in (ids in answers, values in notifications and relayed payloads): the printer of the
+    bundled cJSON keeps a shorter rendering of a double only when that rendering READS BACK TO THE SAME double - the path that
+    skips the full-precision sprintf carries an exact floating-point equality between the value read back and the value, not the
+    verdict of a tolerance function (relative DBL_EPSILON lets 9007199254740991 through as 9.00719925474099e+15 and
+    0.30000000000000004 as 0.3)"""
+    f = P.fn("cJSON.c:print_number")
+    full = [c for c in f.all_insts() if c.op == "call" and c.callee and P.srcname_of(c.callee) in ("sprintf", "snprintf") and
+            any(P.term(f, a) == ("str", "%1.17g") for a in c.a)]
+    short = [c for c in f.all_insts() if c.op == "call" and c.callee and P.srcname_of(c.callee) in ("sprintf", "snprintf") and
+             any(P.term(f, a)[0] == "str" and P.term(f, a)[1].startswith("%1.1") and P.term(f, a)[1] != "%1.17g" for a in c.a)]
+    if not full or not short:
+        raise AnalysisBroken("print_number: the short / full precision renderings were not found")
+    d = ("load", ("field", ("param", 0, f.params[0]["name"]), "struct.cJSON", "valuedouble"))
+    bad = None
+    n = 0
+    for v in Q.path_views(ctx, P, f, loop_iters=1):
+        ids = [i.id for _, i in v.insts()]
+        if short[0].id not in ids or any(c.id in ids for c in full):
+            continue
+        n += 1
+        exact = v.has_atom(lambda a, p: a[0] == "cmp" and d in (a[2], a[3]) and
+                           ((a[1] in ("oeq", "ueq", "foeq", "fueq") and p) or (a[1] in ("one", "une", "fone", "fune") and not p)) and
+                           not Q.mentions(a[2] if a[3] == d else a[3], lambda x: x[0] == "call"))
+        if not exact:
+            bad = v
+    ctx.ob("C02.5 R-PAIR", f, "short-number-rendering-reads-back-exactly", bad is None and n > 0,
+           "print_number() keeps the 15-digit rendering of a double on a path that has not found it to read back to exactly the same "
+           "double (the decision is left to a tolerance test): a request id such as 9007199254740991 is answered with another number, a "
+           "value such as 0.30000000000000004 is notified as 0.3", witness=bad.witness() if bad else None)
+
+
 def clause5_id(ctx, P):
     f = P.fn("response.c:create_common_response")
     n = 0
@@ -437,5 +469,6 @@ def run(ctx):
         clause2_noid(ctx, P)
         clause3_responses(ctx, P)
         clause5_id(ctx, P)
+        clause5b_number_rendering(ctx, P)
         clause6_batch(ctx, P)
         clause7_one_of(ctx, P)
